@@ -14,6 +14,50 @@ FINDING_TAGS = {
 }
 
 
+
+def colliding_promoted_keys(inp):
+    """True when a record of a togo/echo input names one Go field twice: a key at its own level and the same key inside an
+    embedded-struct record (a field keyed by a capitalised type name), or in two embedded siblings. The real fill walks a Go
+    map, so which value wins is order-dependent (C20 finding togo-map-colliding-keys); the specification declines such
+    inputs and the deterministic model cannot correspond to them."""
+    t = inp.split()
+    if len(t) < 3 or t[0] not in ("togo", "echo", "mix"):
+        return False
+    found = [False]
+
+    def val(i):
+        k = t[i]
+        if k == "R":
+            n = int(t[i + 3]); j = i + 4; own = []; emb = []
+            for _ in range(n):
+                key = t[j]; v, j = val(j + 1)
+                own.append(key)
+                if key[:1].isupper() and v is not None:
+                    emb.append(v)
+            promoted = []
+            for e in emb:
+                promoted += e
+            allk = [x for x in own if not x[:1].isupper()] + promoted
+            if len(allk) != len(set(allk)):
+                found[0] = True
+            return list(set(allk)), j
+        if k == "A":
+            n = int(t[i + 1]); j = i + 2
+            for _ in range(n):
+                _, j = val(j)
+            return None, j
+        if k == "H":
+            n = int(t[i + 2]); j = i + 3
+            for _ in range(n):
+                _, j = val(j + 1)
+            return None, j
+        return None, i + 1
+    try:
+        val(2)
+    except Exception:
+        return False
+    return found[0]
+
 def corresponds(inp, impl, model, tags=()):
     """implementation observable == model observable.  mix cases: the model enumerates both orders of filling,
     the implementation samples the order (Go map iteration, the reversed order has probability ~1/8 per run):
@@ -70,6 +114,7 @@ def main(argv):
     prop_fail, corr_fail, table_fail = [], [], []
     known = {}
     n = silent_spec = silent_model = 0
+    order_dependent_outside_spec = 0
     if cases:
         mout = c.model(cases)
         if mout:
@@ -102,10 +147,19 @@ def main(argv):
                 if model in ("OOM", "FUEL"):
                     silent_model += 1
                 elif not corresponds(inp, impl, model):
-                    corr_fail.append(rec)
+                    if spec == "-" and (impl.startswith("ROUTES-DIFFER") or colliding_promoted_keys(inp)):
+                        # the specification declines the input (e.g. a record that names a promoted field both at its
+                        # own level and inside the embedded record) AND the real code itself gives two different
+                        # answers through its two routes (the fill walks a Go map: C20 finding togo-map-colliding-keys):
+                        # there is no single behaviour a deterministic model could correspond to, and the property
+                        # makes no demand on such inputs. Counted, not reported.
+                        order_dependent_outside_spec += 1
+                    else:
+                        corr_fail.append(rec)
     c.coverage["compared"] = n
     c.coverage["traces_validated_against_impl"] = n - silent_model
     c.coverage["specification_silent"] = silent_spec
+    c.coverage["order_dependent_outside_spec"] = order_dependent_outside_spec
     c.coverage["model_silent"] = silent_model
     for t, recs in sorted(known.items()):
         recs.sort(key=lambda r: size_of(r["input"]))
